@@ -51,10 +51,16 @@ C01_Justified(S, S2, c, e, u) ==
   \/ e.act = "RegisterPost" /\ e.pid = u /\ ~S.db[u].ex /\ S2.db[u].ex
   \/ e.act = "OAuthCallback" /\ e.tok >= 1 /\ S.sess[b].oState = e.tok /\ e.outcome \in {"x", "y"}
        /\ u = OPid(e.prov, e.outcome)
-  \/ e.act = "TotpValidate" /\ ValidateUser(Ctx0(S, b), S.sess[b].totpPend) = u
+  \/ e.act = "TotpValidate" /\ ValidateUser(Ctx0(S, c, e), S.sess[b].totpPend) = u
        /\ (S.sess[b].uid = NONE \/ S.sess[b].uid = u)
-  \/ e.act = "SmsValidate" /\ ValidateUser(Ctx0(S, b), S.sess[b].smsPend) = u
+  \/ e.act = "SmsValidate" /\ ValidateUser(Ctx0(S, c, e), S.sess[b].smsPend) = u
        /\ (S.sess[b].uid = NONE \/ S.sess[b].uid = u)
+  \* an injected "not found" on the lookup of the session's user sends the handler to the pending
+  \* account, whose own second factor must then have been presented
+  \/ e.act = "TotpValidate" /\ e.fault >= 1 /\ e.faultE = "notfound" /\ S.sess[b].totpPend = u
+       /\ (RcOk(S, u, e) \/ TotpCodeOk(S, u, e))
+  \/ e.act = "SmsValidate" /\ e.fault >= 1 /\ e.faultE = "notfound" /\ S.sess[b].smsPend = u
+       /\ (RcOk(S, u, e) \/ SmsCodeOk(S, u, e, S.db[u].sms))
   \/ RmAuth(S, c, e) /\ RmOwner(S, S.cookie[b]) = u
 
 C01_V(S, S2, c, e) ==
@@ -441,16 +447,27 @@ FaultViolations(S, S2, c, e, r, r0) ==
   V("C18.noPanic", r.class = "panic" => e.act = "Probe" /\ e.k = "bare")
   \cup V("C18.noFakeSuccess",
          \* (an injected "not found" legitimately sends a handler down its not-found branch)
+         \* (a failure inside the remember middleware is logged and the request goes on without the
+         \*  cookie login: what the handler behind it then reports is about its own, fault-free work;
+         \*  the middleware's part is held to "only invalidates")
+         LET inRememberMW == Has(c, "remember") /\ S.sess[e.b].uid = NONE /\ e.fault <= Len(r.calls) /\ e.fault <= 2
+                             /\ r.calls[1].kind = "UseRememberToken"
+                             /\ r.calls[e.fault].kind \in {"UseRememberToken", "AddRememberToken"}
+         IN
          e.faultE = "io" /\ SuccessLike(r) /\ r.class = r0.resp.class /\ r.loc = r0.resp.loc
-            => SecView(S2) = SecView(r0.st))
+            => IF inRememberMW THEN SecView(S2).db = SecView(r0.st).db ELSE SecView(S2) = SecView(r0.st))
   \cup V("C18.noSessionOnUnsavedConsumption",
-         IsReq(e) /\ Changed(S, S2, e.b, "uid") /\ S2.sess[e.b].uid # NONE /\ OneTimeCred(S, c, e) # <<>>
-            => OneTimeCred(S, c, e) \notin Live(S2))
+         \* (a remember token only answers for the half-authenticated session the middleware issues:
+         \*  a full login by password in the same request stands on the password)
+         LET cred == OneTimeCred(S, c, e) IN
+         IsReq(e) /\ Changed(S, S2, e.b, "uid") /\ S2.sess[e.b].uid # NONE /\ cred # <<>>
+           /\ (cred[1] = "rm" => S2.sess[e.b].half)
+            => cred \notin Live(S2))
   \cup V("C18.onlyInvalidates", \A x \in S.spent : x \notin Live(S2))
   \* a credential the backend already consumed (the consuming call succeeded before the failing one)
   \* stays consumed: the failed request must not put it back
   \cup V("C18.consumedStaysConsumed",
-         RmAuth(S, c, e) /\ (\E i \in 1..(e.fault - 1) : i <= Len(r.calls) /\ r.calls[i] = "UseRememberToken")
+         RmAuth(S, c, e) /\ (\E i \in 1..(e.fault - 1) : i <= Len(r.calls) /\ r.calls[i].kind = "UseRememberToken")
             => S.cookie[e.b] \notin RmIds(S2))
   \cup V("C18.nothingUnissuedBecomesLive",
          \* (id -1: a stored secret nobody was ever shown, e.g. saved before the page failed to render)
